@@ -42,6 +42,12 @@ MaxTok == <<255, 255, 255, 255, 255, 255, 255, 127>>
 Tablets3 == << [first |-> MinTok, last |-> Grid(5), replicas |-> << <<0, 1>>, <<1, 0>> >>],
                [first |-> Grid(5), last |-> Grid(11), replicas |-> << <<2, 3>> >>],
                [first |-> Grid(11), last |-> MaxTok, replicas |-> << <<1, 2>>, <<0, 0>> >>] >>
+\* keys of a CDC log table: 16-byte stream ids; the CDC partitioner's token is their first 8 bytes read as a big-endian long
+CdcBlob(b, i) == <<b, 17 * i, 3, 200, 0, 255, i, 1>> \o <<0, 0, 0, 0, 0, 0, 0, i>>
+CdcKeys == [i \in 1..8 |-> LET bl == CdcBlob(<<0, 21, 63, 85, 127, 128, 160, 225>>[i], i) IN [pk |-> i, blob |-> bl, token |-> CdcToken(bl)]]
+TabletsUnknown == << [first |-> MinTok, last |-> Grid(5), replicas |-> << <<99, 0>>, <<0, 1>>, <<1, 3>> >>],
+                     [first |-> Grid(5), last |-> Grid(11), replicas |-> << <<2, 3>>, <<99, 1>>, <<0, 2>> >>],
+                     [first |-> Grid(11), last |-> MaxTok, replicas |-> << <<99, 2>>, <<99, 3>>, <<1, 1>> >>] >>
 VARIABLE c
 Pick(li, vn, sp, st, po, dn, pl) == (li + 2 * vn + 3 * sp + 5 * st + 7 * po + 11 * dn + 13 * pl) % 24 = 0
 Init ==
@@ -54,6 +60,18 @@ Init ==
   \/ \E li \in {2, 3, 5} : \E sp \in {2, 4} : \E st \in {1, 2, 5} : \E nat \in {1, 3} :
          c = [nodes |-> Nodes(li, 1, sp, 0), strategy |-> Strats[st], pool |-> Pools[1], policy |-> Policies[1], tablets |-> "none", rounds |-> 1,
               nat |-> nat, initial_tablets |-> 1, refresh |-> 0]
+  \* a node comes back reconfigured: same shard count, another ignore-msb (the session must adopt the new sharder)
+  \/ \E li \in {2, 3} : \E st \in {1, 2} : \E n \in {0, 1} : \E m \in {0, 3} :
+         c = [nodes |-> Nodes(li, 1, 2, 0), strategy |-> Strats[st], pool |-> Pools[1], policy |-> Policies[1], tablets |-> "none", rounds |-> 1,
+              nat |-> 0, initial_tablets |-> 1, refresh |-> 0, msb_change |-> [node |-> n, msb |-> m]]
+  \* a CDC log table (other partitioner), with and without every node failing its first PREPARE (the statement is then prepared in a second round)
+  \/ \E li \in {3, 5} : \E st \in {1, 2, 5} : \E sp \in {1, 2} : \E pf \in {0, 1} :
+         c = [nodes |-> Nodes(li, 1, sp, 0), strategy |-> Strats[st], pool |-> Pools[1], policy |-> Policies[1], tablets |-> "none", rounds |-> 1,
+              nat |-> 0, initial_tablets |-> 1, refresh |-> 0, cdc |-> 1, prepare_fail |-> pf, keys |-> CdcKeys]
+  \* a tablet whose replica list names a host the session does not know yet (index 99) before known replicas on other shards
+  \/ \E vn \in 1..2 : \E po \in {1, 2} :
+         c = [nodes |-> Nodes(3, vn, 2, 0), strategy |-> Strats[4], pool |-> Pools[1], policy |-> Policies[po], tablets |-> TabletsUnknown, rounds |-> 2,
+              nat |-> 0, initial_tablets |-> 1, refresh |-> 0]
   \* tablets: ScyllaDB reports initial_tablets = 0 for `tablets = {'enabled': true}`; what was learned must survive a metadata refresh
   \/ \E vn \in 1..2 : \E dn \in {0, 3} : \E po \in {1, 2} : \E it \in {0, 1} : \E rf \in {0, 1} :
          c = [nodes |-> Nodes(3, vn, 2, dn), strategy |-> Strats[4], pool |-> Pools[1], policy |-> Policies[po], tablets |-> Tablets3, rounds |-> 2,
